@@ -10,7 +10,7 @@ PID = "C14"
 TRANSLATE = True
 TRANSLATE_ALGO = ["AlgoTraverse", "AlgoTravFront", "AlgoVolume", "AlgoVolFront"]     # harness/algo_specs/14_voltrav.py: _get_volume_frustum_cone with its `leave` closure
 DRIVER_FILES = ["SwcVerif/Model/AlgoRunVolume.lean", "SwcVerif/Model/AlgoRunVolFront.lean"]
-LEAN_MODS = ["SwcVerif.Props.C14", "SwcVerif.Props.C14Gen"]
+LEAN_MODS = ["SwcVerif.Props.C14", "SwcVerif.Props.C14Gen", "SwcVerif.Props.C14Front"]
 THEOREMS = [
     "C14.tree_volume_eq_sum", "C14.level1_every_tree", "C14.level2_every_tree", "C14.level3_every_tree", "C14.level5_every_tree",
     "C14.node_level1", "C14.node_level2", "C14.node_level3", "C14.node_level5",
@@ -18,6 +18,12 @@ THEOREMS = [
     "RefineVolume.vol_leave_eq", "RefineVolume.spec_vol_leave", "RefineVolume.getVolume_refines", "RefineVolume.getVolume_level10",
     "C14.generated_volume_eq_model", "C14.generated_level1_every_tree", "C14.generated_level2_every_tree", "C14.generated_level3_every_tree",
     "C14.generated_volume_every_tree",
+    # get_volume itself (accuracy / method validation, the accuracy names, the dispatch) and the Monte-Carlo-only scene, generated on this run
+    # (Gen/AlgoVolFront.lean, harness/algo_specs/14b_volfront.py)
+    "RefineVolFront.get_volume_int_eq", "RefineVolFront.get_volume_str_eq", "RefineVolFront.accuracy_names", "RefineVolFront.mc_leave_eq",
+    "RefineVolFront.spec_mc_leave", "RefineVolFront.mc_only_refines", "RefineVolFront.mc_only_empty",
+    "C14.get_volume_eq_model", "C14.get_volume_every_tree", "C14.get_volume_level1_every_tree", "C14.get_volume_level2_every_tree",
+    "C14.get_volume_level3_every_tree", "C14.get_volume_names", "C14.get_volume_level10",
     "C14.chain_union", "C14.chain_hyps_of_pairwise", "C14.sum_chainRose", "C14.chain_volume_is_union", "C14.two_arm_volume_is_union", "C14.lens_inside_frustum",
 ]
 TRUSTED = ["translator (Gen/VolumeTerms.lean: the per-node inclusion–exclusion terms and their accuracy levels, regenerated from analysis/volume.py)",
